@@ -23,6 +23,7 @@ pub fn dispatch(cmd: &str, v: &J) -> Option<Result<J, String>> {
     match cmd {
         "manifest" => Some(manifest(v)),
         "manifest_slice" => Some(manifest_slice(v)),
+        "manifest_slice_many" => Some(manifest_slice_many(v)),
         "manifest_slice_given" => Some(manifest_slice_given(v)),
         _ => None,
     }
@@ -204,6 +205,19 @@ fn slice_error_class(e: &cedar_policy_core::validator::entity_manifest::slicing:
     }
 }
 
+fn slice_one(c: &Computed, m: &EntityManifest, case: &J, with_manifest: bool) -> Result<J, String> {
+    let q = util::request(case.get("request").ok_or("no request")?)?;
+    let es = util::entities(case.get("entities").ok_or("no entities")?)?;
+    let core_pset: &ast::PolicySet = c.pset.as_ref();
+    let full = respond(core_pset, &q, &es);
+    let mj = if with_manifest { serde_json::to_value(m).map_err(|e| format!("{e}"))? } else { J::Null };
+    match m.slice_entities(&es, &q) {
+        Err(e) => Ok(json!({"manifest": mj, "slice_error": slice_error_class(&e), "full": full})),
+        Ok(sliced) => Ok(json!({"manifest": mj, "store": store_dump(&es), "slice": store_dump(&sliced), "full": full,
+                                "sliced": respond(core_pset, &q, &sliced)})),
+    }
+}
+
 pub fn manifest_slice(v: &J) -> Result<J, String> {
     let c = match compute(v)? {
         Ok(c) => c,
@@ -213,16 +227,35 @@ pub fn manifest_slice(v: &J) -> Result<J, String> {
         Err(j) => return Ok(j.clone()),
         Ok(m) => m,
     };
-    let q = util::request(v.get("request").ok_or("no request")?)?;
-    let es = util::entities(v.get("entities").ok_or("no entities")?)?;
-    let core_pset: &ast::PolicySet = c.pset.as_ref();
-    let full = respond(core_pset, &q, &es);
-    let mj = serde_json::to_value(m).map_err(|e| format!("{e}"))?;
-    match m.slice_entities(&es, &q) {
-        Err(e) => Ok(json!({"manifest": mj, "slice_error": slice_error_class(&e), "full": full})),
-        Ok(sliced) => Ok(json!({"manifest": mj, "store": store_dump(&es), "slice": store_dump(&sliced), "full": full,
-                                "sliced": respond(core_pset, &q, &sliced)})),
+    slice_one(&c, m, v, true)
+}
+
+/// {schema_json, templates?, policies, cases: [{request, entities}]}: the manifest is computed once; every case
+/// is sliced and authorized under its own catch_unwind -> {"manifest", "typed", "results": [...]}
+pub fn manifest_slice_many(v: &J) -> Result<J, String> {
+    let c = match compute(v)? {
+        Ok(c) => c,
+        Err(j) => return Ok(j),
+    };
+    let m = match &c.manifest {
+        Err(j) => return Ok(j.clone()),
+        Ok(m) => m,
+    };
+    let empty = vec![];
+    let mut results = vec![];
+    for case in v.get("cases").and_then(|x| x.as_array()).unwrap_or(&empty) {
+        let r = std::panic::catch_unwind(std::panic::AssertUnwindSafe(|| slice_one(&c, m, case, false)));
+        results.push(match r {
+            Ok(Ok(j)) => j,
+            Ok(Err(e)) => json!({"harness_error": e}),
+            Err(p) => {
+                let msg = if let Some(s) = p.downcast_ref::<&str>() { s.to_string() }
+                          else if let Some(s) = p.downcast_ref::<String>() { s.clone() } else { "panic".to_string() };
+                json!({"panic": msg})
+            }
+        });
     }
+    Ok(json!({"manifest": serde_json::to_value(m).map_err(|e| format!("{e}"))?, "typed": typed_dump(&c), "results": results}))
 }
 
 pub fn manifest_slice_given(v: &J) -> Result<J, String> {
